@@ -78,6 +78,13 @@ def step (st : St) (line : String) : St × Option String :=
       let (s', r) := MS.execQuerySt st.nodes st.n st.ms (parseInts args)
       let temps := ",".intercalate ((List.range st.nodes.length).map fun i => toString (MS.tempOf s' i))
       ({ st with ms := s' }, some s!"ms {r} | {temps} | clean={decide (s'.md = []) && (List.range st.nodes.length).all fun i => !MS.markerOf s' i}")
+  | "q" :: "cfgprep" :: args =>
+      -- `q cfgprep lits..`: the temp fields as enumerate / uniform_random_sampling leave them
+      match MS.prepareConfigs st.nodes st.n st.ms (parseInts args) with
+      | none => (st, some "cfgprep none")
+      | some (s', r) =>
+          let temps := ",".intercalate ((List.range st.nodes.length).map fun i => toString (MS.tempOf s' i))
+          ({ st with ms := s' }, some s!"cfgprep {r} | {temps}")
   | "q" :: "ccinit" :: rest =>
       -- `q ccinit n | c1 / c2 / ..`
       let (n, cs) := parseState rest
